@@ -5,6 +5,16 @@ ROOT = os.path.dirname(os.path.dirname(os.path.abspath(__file__)))
 ALL = ["C%02d" % i for i in range(1, 21)]
 
 CHECKS = {
+ "C14": dict(
+   technique="TLA+ ModuleLoader spec (global literal counter, stable-sorted diagnostic bag, cycle DFS path, Kahn order) simulated by TLC over projects x 3 schedules; every schedule forced through the hooked compiler's gates, every run trace-validated by TLC; runs the spec maps to the same Output must be byte-identical",
+   category="model_checking",
+   text="Design invariants exhaustively for all 3-module graphs x interleavings; conformance in both directions on TLC-drawn projects (<=4 modules) with forced and natural schedules (GOMAXPROCS 1/2/16), native IL and wasm bytes compared. Schedule dependences the specification itself exhibits are recorded as known findings per class.",
+   note="Gate hooks give turn-taking atomicity between gates; events of lock-free operations are ordered by the hook mutex bracket; the number of diagnostics per erroneous line is abstracted."),
+ "C15": dict(
+   technique="TLA+ ModuleLoader spec model-checked by TLC over all import graphs x interleavings (Acyclic, CycleRejected, DagBuilds, ParsedOnce, TopoOK); TLC-generated schedules (one per distinct terminal state + -simulate random ones) forced through gates of the real compiler; every run's event trace validated against the spec (LoaderTrace)",
+   category="model_checking",
+   text="Exhaustive at the design level for all digraphs on <=3 modules (ordered import lists and sampled 4-module graphs in the thorough tier); the real binary is driven through every emitted schedule and must give the prescribed verdict, and each DepEdge result it logs must equal the atomic AddDependency action of the spec in the current graph.",
+   note="Turn-taking gates make each step between two gates atomic; a race inside a single gate-to-gate step (e.g. a non-atomic replacement of sync.Map.LoadOrStore) is not schedulable by the gates and is only covered by natural runs."),
  "C11": dict(
    technique="TLA+ judgment Lossless(S,T) (closed forms model-checked against brute force at small widths) + TLC-enumerated cases replayed into the real front end",
    category="model_checking",
@@ -12,7 +22,7 @@ CHECKS = {
    note="Trusts the IEEE-754 reading of f32..f256 (24/53/113/237-bit significands), the renderer of the positions and the front-end verdict observed through compiler.Compile (violations are re-confirmed through the CLI binary)."),
 }
 
-HOOK_COMMITS = []
+HOOK_COMMITS = ["792825e"]
 
 def main():
     checks = []
